@@ -488,6 +488,7 @@ func ruleMigrateRound2(c *Ctx) {
 		ruleExprCopiesKeepOperands(c, "C13.13")
 		ruleChanDirMapping(c, "C13.14", migPkg)
 		ruleAsyncFlag(c, "C13.15")
+		rulePackagesNotComparedByName(c, "C13.17", migPkg)
 		ruleTypeIdentity(c, "C13.16", genPkg)
 	} else {
 		rulePackagelessRendererOnlyAsFallback(c, "C14.6")
@@ -501,6 +502,7 @@ func ruleMigrateRound2(c *Ctx) {
 		ruleConverterHomeIsWirePackage(c, "C14.17")
 		ruleLoadErrorsOfEveryPackage(c, "C14.18")
 		rulePatternImportWalkComplete(c, "C14.19")
+		rulePackagesNotComparedByName(c, "C14.20", migPkg)
 		ruleLoopsMakeProgress(c, "C14.12", migPkg)
 		ruleInspectVisitsEverything(c, "C14.11")
 	}
